@@ -56,6 +56,20 @@ def run(case):
                 els[name].equation = v
     except Exception as e:
         return None      # the DSL rejects the model: not a test
+    bad = compare(case, m, els, start, dt, steps, grid)
+    if bad or not case.get("dt2"):
+        return bad
+    # second phase: the run spec is changed on the existing model (direct assignment), caches reset, and the model re-run
+    dt2 = case["dt2"]
+    grid2 = [float(Fraction(str(start)) + i * Fraction(str(dt2))) for i in range(steps + 1)]
+    m.dt = dt2
+    m.stoptime = grid2[-1]
+    m.reset_cache()
+    bad = compare(case, m, els, start, dt2, steps, grid2)
+    return ("after model.dt = %r: " % dt2 + bad) if bad else None
+
+
+def compare(case, m, els, start, dt, steps, grid):
     # ---- reference ------------------------------------------------------------------------------------
     spec_of = {name: (kind, spec) for kind, name, spec in case["elements"]}
     memo = {}
@@ -180,7 +194,8 @@ def gen(rnd):
         outs = [f for f in flows if f not in ins and rnd.random() < 0.5]
         inline = gen_expr(rnd, names, rnd.randint(1, 2)) if rnd.random() < 0.5 else None
         elements.append(('stock', s, (rnd.choice([0.0, 10.0, -3.0]), ins, outs, inline)))
-    return dict(start=rnd.choice([0.0, 1.0]), dt=dt, steps=rnd.randint(3, 8), elements=elements)
+    return dict(start=rnd.choice([0.0, 1.0]), dt=dt, steps=rnd.randint(3, 8), elements=elements,
+                dt2=rnd.choice([None, dt / 2, 0.1, 0.05]))
 
 
 def main():
